@@ -57,6 +57,7 @@ func c01(c *Ctx) {
 	c01Verifiers(c)
 	// ---- C01.4 client: verify and bind before trusting ---------------------------------------------------------------
 	c01Client(c)
+	c01VerdictTested(c)
 	// ---- C01.5 proto conversions carry every field ---------------------------------------------------------------------
 	c01Proto(c)
 }
@@ -610,4 +611,94 @@ func sameNamed(a, b types.Type) bool {
 	na, ok1 := a.(*types.Named)
 	nb, ok2 := b.(*types.Named)
 	return ok1 && ok2 && na.Obj() == nb.Obj()
+}
+
+// c01VerdictTested: the boolean result of every verifier call made by client-side code is branched on before
+// the same call executes again (a loop overwriting the verdict), before a success return and before the trusted
+// state advances. A verdict that is merged into a later one (`verifies = Verify(...)` in a loop, tested once
+// after the loop) authenticates the last element only.
+func c01VerdictTested(c *Ctx) {
+	r := "C01.4/verdict-tested"
+	isVerifier := func(in ssa.Instruction) bool {
+		call, ok := in.(*ssa.Call)
+		if !ok {
+			return false
+		}
+		cal := call.Call.StaticCallee()
+		if cal == nil || cal.Pkg == nil {
+			return false
+		}
+		p := short(cal.Pkg.Pkg.Path())
+		if p != "embedded/store" && p != "embedded/ahtree" && p != "embedded/htree" {
+			return false
+		}
+		if !strings.HasPrefix(cal.Name(), "Verify") {
+			return false
+		}
+		res := cal.Signature.Results()
+		if res.Len() != 1 {
+			return false
+		}
+		b, ok := res.At(0).Type().Underlying().(*types.Basic)
+		return ok && b.Kind() == types.Bool
+	}
+	setState := callTo("(pkg/client/state.StateService).SetState")
+	n := 0
+	for _, f := range c.allFns {
+		if !fnInPkgs(f, []string{"pkg/client", "pkg/verification", "pkg/client/auditor", "pkg/integration"}) && !strings.HasPrefix(fnName(f), "pkg/client") {
+			continue
+		}
+		if strings.HasPrefix(fnName(f), "pkg/integration") {
+			continue
+		}
+		for i, in := range sites(f, isVerifier) {
+			n++
+			call := in.(*ssa.Call)
+			tested := func(b *ssa.BasicBlock, succ int) bool {
+				if len(b.Instrs) == 0 {
+					return false
+				}
+				ifi, ok := b.Instrs[len(b.Instrs)-1].(*ssa.If)
+				if !ok {
+					return false
+				}
+				for _, leaf := range boolLeaves(ifi.Cond) {
+					x := leaf
+					for {
+						if u, ok := x.(*ssa.UnOp); ok && u.Op == token.NOT {
+							x = u.X
+							continue
+						}
+						break
+					}
+					if x == ssa.Value(call) {
+						return true
+					}
+				}
+				return false
+			}
+			q := &pathQ{fn: f, from: []ssa.Instruction{in}, to: func(x ssa.Instruction) bool {
+				return x == in || setState(x) || successReturn(x)
+			}, barrier: tested}
+			w := q.bypass()
+			key := fmt.Sprintf("%s:%s#%d", fnName(f), lastSeg(calleeName(&call.Call)), i)
+			// a verdict that is returned as is hands the decision to the caller
+			returned := false
+			for _, ref := range *call.Referrers() {
+				if _, ok := ref.(*ssa.Return); ok {
+					returned = true
+				}
+			}
+			if returned {
+				c.okTrivial(r, key, c.pos(in.Pos()), "the verdict is the function's result")
+				continue
+			}
+			c.check(w == nil, r, key, c.pos(in.Pos()), "the verdict itself is branched on before the call repeats, before success and before SetState",
+				"the result of this verifier call can be overwritten by a later call, or reach a successful return / SetState, without having been tested: "+c.witnessStr(w))
+		}
+	}
+	c.count("client_verifier_calls", n)
+	if n < 10 {
+		c.undecided(r, "floor", fmt.Sprintf("only %d verifier calls found in client-side packages", n))
+	}
 }
